@@ -125,6 +125,15 @@ CONFIGS = [
 ]
 
 
+# every single-rule and every all-but-one-rule subset of each mixin service (exposure on both clients only): a block of one RPC guarded by the
+# switch of another shows up exactly in these
+for _s, _ms in SERVICES.items():
+    for _m in _ms:
+        CONFIGS.append(([_s], [f"{_s}.{_m}"], None, "", False))
+        if len(_ms) > 2:
+            CONFIGS.append(([_s], [f"{_s}.{_x}" for _x in _ms if _x != _m], None, "", False))
+
+
 def run_config(i):
     apis, rules, iam_rpc, opts, drive = CONFIGS[i]
     return one(apis, rules, iam_rpc, opts, drive)
@@ -133,9 +142,14 @@ def run_config(i):
 def scenarios():
     import subprocess, sys, json, os
     failures = []
-    for i in range(len(CONFIGS)):
+    from concurrent.futures import ThreadPoolExecutor
+
+    def _one(i):
         code = "import json\nfrom props.C17_native import run_config\nprint('@@'+json.dumps(run_config(%d), default=str))" % i
-        p = subprocess.run([sys.executable, "-c", code], capture_output=True, text=True, env=dict(os.environ))
+        return i, subprocess.run([sys.executable, "-c", code], capture_output=True, text=True, env=dict(os.environ))
+    with ThreadPoolExecutor(max_workers=8) as tp:
+        outs = list(tp.map(_one, range(len(CONFIGS))))
+    for i, p in outs:
         if "@@" not in p.stdout:
             failures.append({"config": i, "error": p.stderr[-500:]})
         else:
